@@ -179,4 +179,33 @@ CHECKS = {
         "note": "Detection is probabilistic in K (a two-way order dependence is missed with probability 2^-(K-1); quick K=6, thorough K=16); "
                 "the flow table is a transcription made by reading the code.",
     },
+    "C03": {
+        "level": "model_checking",
+        "technique": "TLA+ specs GenMut (Core.Accept decides: one mutation at one position in nested blocks; invariant MutantsAreIllTyped) "
+                     "and Rules (documented rule table x hosts x blocks); every mutant and its well-typed twin through the real checker; "
+                     "a diagnostic must intersect the offending construct",
+        "text": "For the Core-expressible rules TLC constructs a well-typed program, applies one mutation operator at one position inside "
+                "0..3 nested blocks of every kind and emits it only if the specification's Accept rejects it and accepts the twin; the "
+                "remaining listed rules are a documented table walked over hosts x nested blocks. The real checker must reject every "
+                "mutant with an error located inside the offending construct and accept the twin.",
+        "note": "Contexts: if / elif / else / while / for / both match-arm syntaxes / model and class methods; closures, comprehensions and "
+                "f-string holes not yet generated. Four genuine acceptance gaps are catalogued; the elif gap was repaired (fix 6e001be).",
+    },
+    "C14": {
+        "level": "model_checking",
+        "technique": "TLA+ spec Modules (three resolvers transcribed as instances of one parametric resolver + cause analysis, visibility "
+                     "transcription, four collector worklist machines): TLC exhaustive over the bounded layout x import universe and all "
+                     "import graphs; every case materialised as a real tree and asked of collect_modules / resolve_import_path / "
+                     "ModuleResolver / ModuleCollector / the real language server; visit sequences validated by TLC (ModulesTrace)",
+        "text": "Modules.tla models project layouts as sets of paths, the documented resolution, the three resolver implementations side "
+                "by side, the checker's handling of imported symbols and the collectors' worklist loops. TLC proves the transcriptions are "
+                "instances of one parametric resolver, names every disagreement by the algorithmic differences that cause it, and proves "
+                "termination / visit-once of all collectors on every import graph incl. cycles. Every TLC case is materialised under "
+                "work/C14/fs and the real functions (and the real server via didOpen) must answer exactly what their transcription says; "
+                "confirmed disagreements, missing diagnostics and visibility leaks are catalogued by cause; real visit sequences are "
+                "validated against the machines by TLC.",
+        "note": "Bounded universe (entry two directories below the root, <=3 segments, parent levels <=2, five probed file shapes); the "
+                "documentation fixes an answer only when exactly one reading has a single .incn candidate; the catalogued classes are "
+                "genuine and stay reported as KNOWN-FINDING; three defects were repaired.",
+    },
 }
